@@ -1,64 +1,127 @@
 ID = 'C06'
-CUTS = [r'^_ZN5phosg13string_printfB5cxx11EPKcz$', r'^_ZN5phosg8io_errorC[12]Ei$', r'^_ZN5phosg5fgetsB5cxx11EP8_IO_FILE$']
-UNITS = {'img': dict(wrap='wrap.cc', shim=True, new_block=128, per_harness={'h_ppm.c': {'new_block': 320}}, cxxflags=['-U_FORTIFY_SOURCE', '-D_FORTIFY_SOURCE=0'], cuts=CUTS, gen_defs=['VERIF_EXC_POOL=4'])}
-BOUNDS = ''
-STUBS = []
-OUTSIDE = []
-ASSUMPTIONS = []
-P = '_ZN5phosg5Image'
+# Functions cut out of the generated C (they only build exception messages / are unreachable); the stubs are in c06.h:
+#  string_printf          -> returns "" (message text is not part of any claim; decimal formatting is not modelled)
+#  io_error::io_error(int)-> only reached when fread()/fwrite() return a negative count, which size_t never is; left unprovided,
+#                            so reaching it would be reported as "unmodelled external"
+CUTS = [r'^_ZN5phosg13string_printfB5cxx11EPKcz$', r'^_ZN5phosg8io_errorC[12]Ei$']
+UNITS = {'img': dict(wrap='wrap.cc', shim=True, new_block=128, cxxflags=['-U_FORTIFY_SOURCE', '-D_FORTIFY_SOURCE=0'], cuts=CUTS, gen_defs=['VERIF_EXC_POOL=4'])}
+BOUNDS = ('Images 1..4 x 1..3 (all residues of width mod 4), alpha on/off, all pixel/sample bytes symbolic, ONE symbolic checked pixel/byte per query. '
+          'BMP: save->decode->load, every prefix length symbolic; input variants 24/32-bit BI_RGB, BI_BITFIELDS with all 24 byte-mask permutations, top-down/bottom-up, '
+          'info header 40/108/124 bytes, pixel-data gap 0/2. BMP header arithmetic: width symbolic in [1,32768], height cells. '
+          'PPM: P6 load for 8/16/32/64-bit samples with every prefix inside the samples symbolic and every prefix inside the header as concrete cells; P5 gray load 8/16/32/64-bit; '
+          'P6 save bytes == canonical file. PNG: framing for 1..3 x 1..3. Raw constructor: every file length.')
+STUBS = ['stdio over a harness byte array (props/C06/c06.h): fread fwrite fgetc fgets feof fileno fseek __isoc99_fscanf("%zu"/"%lu") snprintf(literals,%zu,%lu) - libc contracts, exact decimal conversion; '
+         'fread deviation: on a short read the unread tail of the caller buffer receives stale bytes (never read: freadx throws)',
+         'strtoull (base 10, exact) for std::stoull',
+         'zlib compressBound / compress2 / crc32: deterministic stand-ins that record their input (PNG harness only)',
+         'phosg::string_printf cut to "" in the generated C (exception messages only); io_error(int) constructor cut (unreachable: fread never returns a negative count)',
+         'engine/shim unordered_map (BI_BITFIELDS mask table, 4 entries) and deque',
+         'exception objects come from a static pool (VERIF_EXC_POOL) so that cbmc --memory-leak-check sees only program allocations']
+OUTSIDE = ['P7 (PAM) *input*: the text header goes through phosg::fgets + std::string substr/stoull per line; no verdict at the smallest cell (1x1, 517k symex steps, >8 GB) - P7 RGB_ALPHA and GRAYSCALE_ALPHA decode are therefore not decided by the solver (the gray+alpha source index is repaired by the same patch as P5, see NOTES.md)',
+           'P7 output header text (snprintf through a variadic prototype is not constant-propagated by CBMC; the 67-character format did not finish)',
+           'that the deflate stream inflates to the scan lines and that zlib crc32 is the PNG CRC (zlib is not encoded); independent-decoder agreement for PNG beyond framing',
+           'dimensions above 4x3; 16-bit and wider samples are compared in host byte order (phosg writes and reads them raw; Netpbm defines big-endian) - see NOTES.md',
+           'malformed (not merely truncated) headers, e.g. BMP info-header size < 4 (observation in NOTES.md)']
+ASSUMPTIONS = ['x86-64 little-endian host', 'heap allocation never fails']
+FLAGS = ['--memory-leak-check', '--max-field-sensitivity-array-size', '256']
+# the shim unordered_map(initializer_list) constructor of the 4-entry mask table: nested slot-search loops, 4 x 4 iterations
+UM = ','.join('_ZNSt13unordered_mapIjmvvvEC2ESt16initializer_listISt4pairIKjmEE.%d:20' % i for i in range(4))
 
 
 def queries(tier):
     qs = []
-    def bmp(W, H, A):
+    T = tier == 'thorough'
+
+    def bmp(W, H, A, tlen=None):
         n = W * H * (3 + A) + 2
+        defs = {'W': W, 'H': H, 'ALPHA': A}
+        if tlen is not None:
+            defs['TLEN'] = tlen
         full = 14 + (124 if A else 40) + ((W * (3 + A) + 3) // 4 * 4) * H
-        return dict(name='bmp_roundtrip_%dx%da%d' % (W, H, A), unit='img', harness='h_bmp_rt.c', defs={'W': W, 'H': H, 'ALPHA': A}, unwind=max(W * (3 + A) + 3, H + 2, 6),
-                    unwindset='in_bytes.0:%d,w_set_data.0:%d,verif_memset_loop.0:%d,X_fread.0:%d,X_fwrite.0:%d,verif_memcpy_loop.0:%d' % (n, n, n, 142, 142, 142), timeout=900, mem_gb=8, object_bits=12,
-                    flags=['--memory-leak-check', '--max-field-sensitivity-array-size', '256'],
-                    desc='BMP save of a %dx%d image (alpha=%d): header fields/rows/padding per the format, independent decode of the checked pixel, load of every prefix length: io_error or identical' % (W, H, A),
-                    bounds='image %dx%d, all pixel bytes, every truncation length 0..%d' % (W, H, full))
-    FLAGS = ['--memory-leak-check', '--max-field-sensitivity-array-size', '256']
-    def bmpvar(W, H, bpp, comp, topdown, hdr, gap=0):
+        return dict(name='bmp_roundtrip_%dx%da%d%s' % (W, H, A, '' if tlen is None else '_cut%d' % tlen), unit='img', harness='h_bmp_rt.c', defs=defs, unwind=max(W * (3 + A) + 3, H + 2, 6),
+                    unwindset='in_bytes.0:%d,w_set_data.0:%d,verif_memset_loop.0:%d,X_fread.0:%d,X_fwrite.0:%d,verif_memcpy_loop.0:%d,' % (n, n, n, 142, 142, 142) + UM, timeout=900, mem_gb=8, object_bits=12, flags=FLAGS,
+                    desc='BMP save of a %dx%d image (alpha=%d): header fields/rows/padding per the format, independent decode of the checked pixel, load of %s: io_error or identical' % (W, H, A, 'every prefix that ends inside the pixel data (symbolic)' if tlen is None else 'the %d-byte prefix (inside the headers)' % tlen),
+                    bounds='image %dx%d, all pixel bytes' % (W, H))
+
+    def bmpvar(W, H, bpp, comp, topdown, hdr, gap=0, tlen=None):
+        dv = {'W': W, 'H': H, 'BPP': bpp, 'COMP': comp, 'TOPDOWN': topdown, 'HDR': hdr, 'GAP': gap}
+        if tlen is not None:
+            dv['TLEN'] = tlen
         full = 14 + hdr + 2 + ((W * bpp // 8 + 3) // 4 * 4) * H
-        return dict(name='bmp_variant_%dx%d_bpp%d_comp%d_td%d_hdr%d_gap%d' % (W, H, bpp, comp, topdown, hdr, gap), unit='img', harness='h_bmp_var.c',
-                    defs={'W': W, 'H': H, 'BPP': bpp, 'COMP': comp, 'TOPDOWN': topdown, 'HDR': hdr, 'GAP': gap}, unwind=max(W * 4 + 3, H + 2, 6),
-                    unwindset='harness.0:%d,harness.1:%d,harness.2:%d,harness.3:%d,X_fread.0:%d,verif_memcpy_loop.0:%d,verif_memset_loop.0:%d' % (full, full, full, full, 142, 142, 142), timeout=900, mem_gb=8, object_bits=12, flags=FLAGS,
-                    desc='BMP decode %d-bit %s %s, info header %d bytes, %dx%d: pixels per the format definition (symbolic mask permutation), data offset gap %d, every prefix length: io_error or identical' % (bpp, ('BI_RGB', '', '', 'BI_BITFIELDS')[comp], ('bottom-up', 'top-down')[topdown], hdr, W, H, gap),
-                    bounds='image %dx%d, all data bytes, all 24 mask permutations, every truncation length' % (W, H))
-    for A in (0, 1):
-        for HT in ([1, 3, 64] if tier == 'quick' else [1, 2, 3, 4, 5, 7, 8, 63, 64, 1000, 32768]):
-            qs.append(dict(name='bmp_header_a%d_h%d' % (A, HT), unit='img', harness='h_bmp_hdr.c', defs={'ALPHA': A, 'HT': HT}, unwind=4, unwindset='verif_memcpy_loop.0:142', timeout=600, mem_gb=6,
-                           desc='init_bmp_header for symbolic width in [1,32768], height %d, alpha=%d: every header field per the BMP specification' % (HT, A),
-                           bounds='width in [1,32768], height %d' % HT))
+        return dict(name='bmp_variant_%dx%d_bpp%d_comp%d_td%d_hdr%d_gap%d%s' % (W, H, bpp, comp, topdown, hdr, gap, '' if tlen is None else '_cut%d' % tlen), unit='img', harness='h_bmp_var.c',
+                    defs=dv, unwind=max(W * 4 + 3, H + 2, 6),
+                    unwindset='harness.0:%d,harness.1:%d,harness.2:%d,harness.3:%d,X_fread.0:%d,verif_memcpy_loop.0:%d,verif_memset_loop.0:%d,' % (full, full, full, full, 142, 142, 142) + UM, timeout=900, mem_gb=8, object_bits=12, flags=FLAGS,
+                    desc='BMP decode %d-bit %s %s, info header %d bytes, %dx%d: pixels per the format definition (symbolic mask permutation), data offset gap %d, %s: io_error or identical' % (bpp, ('BI_RGB', '', '', 'BI_BITFIELDS')[comp], ('bottom-up', 'top-down')[topdown], hdr, W, H, gap, 'every prefix that ends inside the pixel data (symbolic)' if tlen is None else 'the %d-byte prefix (inside the headers)' % tlen),
+                    bounds='image %dx%d, all data bytes, all 24 mask permutations' % (W, H))
+
     def ppm(mode, W, H, A, CW, tlen=None):
         n = W * H * (3 + A) * CW // 8 + 2
         defs = {'MODE': mode, 'W': W, 'H': H, 'ALPHA': A, 'CW': CW, 'FCAP': 96 + n}
         if tlen is not None:
             defs['TLEN'] = tlen
+        # snprintf_core loops: .0/.1 digit loops, .2 the format-string loop
         return dict(name='ppm_%s_%dx%da%d_cw%d%s' % (('colour_save', 'gray_decode', 'colour_load')[mode], W, H, A, CW, '' if tlen is None else '_cut%d' % tlen), unit='img', harness='h_ppm.c', defs=defs,
-                    unwind=max(W, H, 8) + 2, unwindset='in_bytes.0:%d,w_set_data.0:%d,verif_memset_loop.0:%d,X_fread.0:%d,X_fwrite.0:%d,verif_memcpy_loop.0:%d,harness.0:%d,harness.1:%d,harness.2:%d,harness.3:100,harness.4:100,put_str.0:40,put_dec.0:22,put_dec.1:22,fscanf_core.0:6,fscanf_core.1:22,snprintf_core.0:24,snprintf_core.1:24,snprintf_core.2:90,strlen.0:100,X_fgets.0:260,X__ZN5phosg5fgetsB5cxx11EP8_IO_FILE.0:42,X__ZN5phosg5fgetsB5cxx11EP8_IO_FILE.1:42,memcmp.0:30,X_strtoull.0:4,X_strtoull.1:24' % (n, n, 260, n, 100, 260, 100, 100, 100),
+                    unwind=max(W, H, 8) + 2, unwindset='in_bytes.0:%d,w_set_data.0:%d,verif_memset_loop.0:%d,X_fread.0:%d,X_fwrite.0:%d,verif_memcpy_loop.0:%d,harness.0:%d,harness.1:%d,harness.2:%d,harness.3:100,put_str.0:40,put_dec.0:22,put_dec.1:22,fscanf_core.0:6,fscanf_core.1:22,snprintf_core.0:80,snprintf_core.1:22,snprintf_core.2:22,strlen.0:100' % (n, n, n, n, 100, n, 100, 100, 100),
                     timeout=900, mem_gb=8, object_bits=12, flags=FLAGS,
-                    desc='%s, %dx%d, alpha=%d, %d-bit samples, %s: exception or identical' % (('colour PPM/PAM save: file == canonical Netpbm header + raw samples', 'grayscale PPM/PAM input: (g,g,g[,a]) expansion, memory safety', 'colour PPM/PAM load of the canonical file: identity')[mode], W, H, A, CW, 'every prefix that ends inside the samples (symbolic)' if tlen is None else 'prefix of %d bytes (inside the header)' % tlen),
-                    bounds='image %dx%d, all sample bytes, every truncation length' % (W, H))
-    if tier == 'quick':
-        qs += [ppm(0, 2, 2, 0, 8), ppm(2, 2, 2, 0, 8), ppm(2, 2, 2, 0, 8, 5),  ppm(2, 1, 2, 0, 16), ppm(2, 2, 1, 0, 64), ppm(2, 2, 1, 0, 64, 27), ppm(1, 2, 2, 0, 8), ppm(1, 1, 2, 0, 16), ppm(0, 1, 1, 1, 16)]
+                    desc='%s, %dx%d, alpha=%d, %d-bit samples%s' % (('colour PPM save: file == canonical Netpbm header + raw samples', 'grayscale PPM input: (g,g,g) expansion, memory safety', 'colour PPM load of the canonical file: identity')[mode], W, H, A, CW,
+                                                                     '' if mode == 0 else (', every prefix that ends inside the samples (symbolic): exception or identical' if tlen is None else ', prefix of %d bytes (inside the header): exception' % tlen)),
+                    bounds='image %dx%d, all sample bytes' % (W, H))
+
     def png(W, H, A):
         n = W * H * (3 + A) + 2
         return dict(name='png_framing_%dx%da%d' % (W, H, A), unit='img', harness='h_png.c', defs={'W': W, 'H': H, 'ALPHA': A}, unwind=max(W * 4 + 2, 20),
                     unwindset='in_bytes.0:%d,w_set_data.0:%d,verif_memset_loop.0:%d,X_fwrite.0:40,verif_memcpy_loop.0:40,X_compress2.0:%d' % (n, n, n + H + 20, n + H + 2), timeout=900, mem_gb=8, object_bits=12, flags=FLAGS,
                     desc='PNG save of a %dx%d image (alpha=%d): signature, IHDR/gAMA/IDAT/IEND framing with big-endian lengths and CRC over type+data (zlib stubs), scanline buffer handed to compress2' % (W, H, A),
                     bounds='image %dx%d, all pixel bytes; zlib functions are stubs' % (W, H))
+
     def raw(W, H, A):
         n = W * H * (3 + A) + 2
         return dict(name='raw_ctor_%dx%da%d' % (W, H, A), unit='img', harness='h_raw.c', defs={'W': W, 'H': H, 'ALPHA': A}, unwind=8,
                     unwindset='harness.0:%d,X_fread.0:%d,verif_memcpy_loop.0:%d' % (n, n, n), timeout=600, mem_gb=6, object_bits=12, flags=FLAGS,
                     desc='Image(FILE*, %d, %d, alpha=%d) raw constructor: io_error iff short file, pixel buffer released on the exception path' % (W, H, A),
                     bounds='image %dx%d, every file length 0..size' % (W, H))
-    if tier == 'quick':
-        qs += [png(2, 2, 0), png(1, 2, 1), raw(2, 2, 0)]
-    if tier == 'quick':
+
+    for A in (0, 1):
+        for HT in ([1, 3, 64] if not T else [1, 2, 3, 4, 5, 7, 8, 63, 64, 1000, 32768]):
+            qs.append(dict(name='bmp_header_a%d_h%d' % (A, HT), unit='img', harness='h_bmp_hdr.c', defs={'ALPHA': A, 'HT': HT}, unwind=4, unwindset='verif_memcpy_loop.0:142', timeout=600, mem_gb=6,
+                           desc='init_bmp_header for symbolic width in [1,32768], height %d, alpha=%d: every header field per the BMP specification' % (HT, A),
+                           bounds='width in [1,32768], height %d' % HT))
+    if not T:
+        qs += [bmp(1, 2, 0), bmp(2, 2, 0), bmp(3, 2, 0), bmp(4, 2, 0), bmp(2, 2, 1), bmp(3, 1, 1), bmp(2, 2, 0, 0), bmp(2, 2, 0, 17), bmp(2, 2, 0, 53), bmp(2, 2, 1, 100)]
         qs += [bmpvar(2, 2, 24, 0, 0, 40), bmpvar(3, 2, 24, 0, 1, 40), bmpvar(2, 2, 32, 0, 0, 40), bmpvar(2, 2, 32, 3, 0, 124, 2), bmpvar(1, 2, 32, 3, 1, 108)]
-    if tier == 'quick':
-        qs += [bmp(1, 2, 0), bmp(2, 2, 0), bmp(3, 2, 0), bmp(4, 2, 0), bmp(2, 2, 1), bmp(3, 1, 1)]
+        qs += [ppm(2, 2, 2, 0, 8), ppm(2, 2, 2, 0, 8, 5), ppm(2, 1, 2, 0, 16), ppm(2, 2, 1, 0, 64), ppm(2, 2, 1, 0, 64, 27), ppm(1, 2, 2, 0, 8), ppm(1, 1, 2, 0, 16)]
+        qs += [png(2, 2, 0), png(1, 2, 1), raw(2, 2, 0)]
+    else:
+        for W in (1, 2, 3, 4):
+            for H in (1, 2, 3):
+                for A in (0, 1):
+                    qs.append(bmp(W, H, A))
+        for (W, H) in ((1, 1), (2, 2), (3, 2), (4, 1)):
+            for td in (0, 1):
+                qs += [bmpvar(W, H, 24, 0, td, 40), bmpvar(W, H, 32, 0, td, 40), bmpvar(W, H, 32, 3, td, 108), bmpvar(W, H, 32, 3, td, 124)]
+        for cut in range(0, 54, 2):
+            qs.append(bmp(2, 2, 0, cut))
+        for cut in range(1, 138, 4):
+            qs.append(bmp(2, 1, 1, cut))
+        for cut in (0, 13, 14, 17, 18, 30, 53, 55):
+            qs.append(bmpvar(2, 2, 24, 0, 1, 40, 2, cut))
+        qs += [bmpvar(2, 2, 24, 0, 0, 40, 2), bmpvar(2, 2, 32, 3, 1, 124, 2), bmpvar(3, 1, 24, 0, 0, 108), bmpvar(3, 1, 24, 0, 1, 124)]
+        for (W, H) in ((1, 1), (2, 2), (3, 1), (1, 3)):
+            for CW in (8, 16, 32, 64):
+                qs += [ppm(2, W, H, 0, CW), ppm(1, W, H, 0, CW)]
+        for cut in range(0, 11):      # "P6 2 2 255\n" is 11 bytes
+            qs.append(ppm(2, 2, 2, 0, 8, cut))
+        for cut in range(0, 31, 3):   # "P6 2 1 18446744073709551615\n" is 28 bytes
+            qs.append(ppm(2, 2, 1, 0, 64, cut))
+        for cut in (0, 1, 2, 3, 5, 7, 9, 10):
+            qs.append(ppm(1, 2, 2, 0, 8, cut))
+        qs += [ppm(0, 2, 2, 0, 8), ppm(0, 1, 1, 0, 16), ppm(0, 1, 1, 0, 64)]
+        for W in (1, 2, 3):
+            for H in (1, 2, 3):
+                for A in (0, 1):
+                    qs.append(png(W, H, A))
+        qs += [raw(1, 1, 0), raw(2, 2, 0), raw(2, 2, 1), raw(3, 1, 0)]
+    if T:
+        for q in qs:
+            q.setdefault('tv_runs', 20)  # translation validation: 60 random runs per query in quick, 20 in thorough (many more queries)
     return qs
